@@ -6,6 +6,7 @@ import (
 	"fmt"
 	"go/token"
 	"go/types"
+	"strings"
 
 	"golang.org/x/tools/go/ssa"
 )
@@ -28,6 +29,9 @@ func (ex *Exec) step(st *State, fc *FnCtx, in ssa.Instruction, pred *ssa.BasicBl
 		r := ex.newRef(st)
 		p := &Ptr{Ref: r, Obj: t}
 		ex.initObject(st, p, t)
+		if n, ok := t.(*types.Named); ok && n.Obj().Pkg() != nil && !strings.HasPrefix(n.Obj().Pkg().Path(), "go.uber.org/thriftrw") {
+			ex.initGhost(st, r)
+		}
 		st.env[x] = p
 	case *ssa.Store:
 		p := ex.ptrOf(st, x.Addr)
@@ -37,12 +41,18 @@ func (ex *Exec) step(st *State, fc *FnCtx, in ssa.Instruction, pred *ssa.BasicBl
 	case *ssa.UnOp:
 		switch x.Op {
 		case token.MUL:
+			if g, ok := x.X.(*ssa.Global); ok {
+				if cv, ok := ex.constGlobal(g.Object().(*types.Var)); ok {
+					st.env[x] = cv
+					return false
+				}
+			}
 			p := ex.ptrOf(st, x.X)
 			ex.derefCheck(st, fc, p, in)
 			v := ex.loadH(st, st.heap, p)
 			if p.Cell == nil {
 				v = ex.define(st, "ld", v)
-				ex.assumeWellTyped(st, v, x.Type())
+				ex.assumeLoaded(st, v, x.Type())
 			}
 			st.env[x] = v
 		case token.NOT:
@@ -255,6 +265,8 @@ func (ex *Exec) boundsCheck(st *State, fc *FnCtx, in ssa.Instruction, idx, n Ter
 }
 
 func (ex *Exec) initObject(st *State, p *Ptr, t types.Type) {
+	hb := st.heapBound
+	defer func() { st.heapBound = hb }()
 	switch tt := t.Underlying().(type) {
 	case *types.Struct:
 		ex.storeStruct(st, p.Ref, t, ex.u.zeroOf(t))
@@ -614,4 +626,41 @@ func (ex *Exec) sliceOp(st *State, fc *FnCtx, x *ssa.Slice) Val {
 	}
 	unsupported("slice of %s", x.X.Type())
 	return nil
+}
+
+
+// initGhost: a freshly allocated object has consumed / produced nothing.
+func (ex *Exec) initGhost(st *State, r Term) {
+	for _, g := range []string{"rpos", "wlen"} {
+		so, ok := ex.cs.Ghost[g]
+		if !ok {
+			continue
+		}
+		c := ex.comp(st.heap, compGhost(g), so)
+		ex.setComp(st, compGhost(g), store(c, r, bv64(0)))
+	}
+}
+
+
+// constGlobal: sentinel package-level variables declared `constglobal` are
+// fixed non-nil interface values, pairwise distinct.
+func (ex *Exec) constGlobal(v *types.Var) (Term, bool) {
+	if v.Pkg() == nil {
+		return Term{}, false
+	}
+	key := v.Pkg().Path() + "." + v.Name()
+	if !ex.cs.ConstGlobals[key] || ex.u.sortOf(v.Type()) != sIface {
+		return Term{}, false
+	}
+	name := "cg_" + sanitize(key)
+	if !ex.declSet[name] {
+		ex.declSet[name] = true
+		ex.decls = append(ex.decls, fmt.Sprintf("(declare-const %s Iface)", name))
+		ex.decls = append(ex.decls, fmt.Sprintf("(assert (> (i.tag %s) 0))", name))
+		for _, o := range ex.constGlobals {
+			ex.decls = append(ex.decls, fmt.Sprintf("(assert (not (= %s %s)))", name, o))
+		}
+		ex.constGlobals = append(ex.constGlobals, name)
+	}
+	return Term{name, sIface}, true
 }
